@@ -162,16 +162,21 @@ func init() {
 			{Pkg: walletPkg, Fn: "ZzC16HorizonW2", Tiers: "qt", NoNative: true, Reach: []string{"c16-end", "invalid-child", "jump"}, Bound: "window 2, 2 rounds"},
 			{Pkg: walletPkg, Fn: "ZzC16HorizonW3", Tiers: "qt", NoNative: true, Reach: []string{"c16-end", "invalid-child", "jump"}, Bound: "window 3, 2 rounds"},
 			{Pkg: walletPkg, Fn: "ZzC16HorizonResume", Tiers: "qt", NoNative: true, Reach: []string{"c16-end"}, Bound: "window 2, resumed recovery starting at index 7"},
+			{Pkg: walletPkg, Fn: "ZzC16RecoveryW2B2", Tiers: "qt", Reach: []string{"c16-end", "resumed", "spend-with-change", "two-receipts-in-a-block"}, Bound: "the real recovery loop (Wallet.recovery, RecoveryManager incl. Resurrect, real address manager, transaction store and chain.BlockFilterer) on a wallet restored from the seed, window 2: every chain of 2 blocks whose content is chosen from {external receipt, internal receipt, two external receipts, spend of an earlier output with internal change}, every index inside the window, optionally a first recovery session after block 1 (the final run resumes)"},
+			{Pkg: walletPkg, Fn: "ZzC16RecoveryW2B3", Tiers: "t", Reach: []string{"c16-end", "resumed", "spend-with-change"}, Bound: "window 2, chains of 3 blocks, a session may end after each of the first two"},
+			{Pkg: walletPkg, Fn: "ZzC16RecoveryW3B3", Tiers: "t", Reach: []string{"c16-end", "resumed"}, Bound: "window 3, chains of 3 blocks"},
 			{Pkg: walletPkg, Fn: "ZzC16HorizonW3R3", Tiers: "t", NoNative: true, Reach: []string{"c16-end"}, Bound: "window 3, 3 rounds"},
 			{Pkg: walletPkg, Fn: "ZzC16HorizonW4", Tiers: "t", NoNative: true, Reach: []string{"c16-end"}, Bound: "window 4, 2 rounds, start index 7"},
 		},
 		Assume: []string{
-			"pieces 1 and 2 of the design only: locateBirthdayBlock, and BranchRecoveryState + expandScopeHorizons + extendFoundAddresses; the full recovery loop with the block filterer and balances (piece 3) is not covered",
+			"three pieces: locateBirthdayBlock; BranchRecoveryState + expandScopeHorizons + extendFoundAddresses with symbolic invalid children (derivation stubbed); and the full recovery loop with real derivation, real block filterer, balances and resumption on the concrete seed (ZzC16Recovery*)",
+			"the chain model's FilterBlocks runs the real chain.BlockFilterer over each requested block (what chain.RPCClient.FilterBlocks does after its compact-filter pre-check, which is skipped)",
+			"payments go to BIP0084 addresses of account 0; the other default scopes are expanded and filtered but never paid",
 			"ScopedKeyManager.DeriveFromKeyPath/Extend*Addresses/MarkUsed are replaced by harness stubs (verifrt.StubFunc) whose derivation declares child indexes invalid by symbolic booleans; counterexamples of these harnesses are confirmed by deterministic re-execution in the executor, not natively",
 			"time.Time.Sub is replaced by its contract (saturating difference) because its body divides by 10^9",
 			"the stored birthday precedes the first possible payment by two days (wallet creation subtracts 48h), so a start block with timestamp <= birthday+2h is not later than the first block that could pay",
 		},
-		Outside: "chains longer than 64 blocks (bounded binary search, not the inductive loop-cut of the design), windows above 4, more than 2 invalid children, index wrap at 2^32, recovery of balances/transactions, interruption and Resurrect",
+		Outside: "chains longer than 64 blocks (bounded binary search, not the inductive loop-cut of the design), windows above 4 (3 in the full loop), more than 2 invalid children, index wrap at 2^32, chains longer than 3 blocks in the full loop, batches of more than one FilterBlocks round trip per 2000 blocks, forced shutdown in the middle of a batch, backend errors during a batch",
 	})
 	mgrAssume := []string{
 		"one concrete 32-byte seed, concrete passphrases: BIP32 derivation, secp256k1, scrypt, secretbox, SHA-2, RIPEMD-160, base58 run natively (real libraries) on concrete inputs; the claim is for this seed, not for every seed",
